@@ -126,10 +126,9 @@ type pair struct {
 }
 
 func (s *snapshot) open(dirP, dirF string) *pair {
-	// only the ledger is copied: the consensus database is a cache of election results, rebuilt in memory on demand
-	copyDir(filepath.Join(s.ProdDir, "nom"), filepath.Join(dirP, "nom"))
-	copyDir(filepath.Join(s.FollDir, "nom"), filepath.Join(dirF, "nom"))
-	p := &pair{P: vnode.New(vnode.Options{Dir: dirP, MemConsensus: true}), F: vnode.New(vnode.Options{Dir: dirF, NoPillars: true, MemConsensus: true})}
+	copyDir(s.ProdDir, dirP)
+	copyDir(s.FollDir, dirF)
+	p := &pair{P: vnode.New(vnode.Options{Dir: dirP}), F: vnode.New(vnode.Options{Dir: dirF, NoPillars: true})}
 	p.synced = p.F.Height()
 	return p
 }
